@@ -123,6 +123,7 @@ type Solver struct {
 	TimeoutMs int
 	Stats     Stats
 	LastErr   string
+	broken    bool // a solver process died: assertion stacks are gone until the next Reset
 	trace     io.Writer
 	buf       strings.Builder
 }
@@ -223,6 +224,7 @@ func (s *Solver) Reset() {
 	s.level = 0
 	s.defined = map[int]int{}
 	s.ufs = map[string]int{}
+	s.broken = false
 }
 
 func sortStr(t *Term) string {
@@ -392,10 +394,15 @@ func (s *Solver) readVerdict(p *proc) Result {
 	for {
 		line, err := p.out.ReadString('\n')
 		if err != nil {
+			// the solver process died (crash, out of memory): this query is unknown; a fresh
+			// process takes its place and every further query is unknown until the caller
+			// rebuilds the assertion stack from scratch (Reset / CheckOneShot)
 			p.dead = true
 			s.LastErr = p.name + ": solver process ended: " + err.Error()
 			s.Stats.Errors++
-			panic("smt: " + s.LastErr)
+			s.revive(p)
+			s.broken = true
+			return Unknown
 		}
 		line = strings.TrimSpace(line)
 		switch {
@@ -422,8 +429,28 @@ func (s *Solver) readVerdict(p *proc) Result {
 	}
 }
 
+// revive replaces a dead solver process by a fresh one of the same kind.
+func (s *Solver) revive(p *proc) {
+	if p.cmd != nil && p.cmd.Process != nil {
+		p.cmd.Process.Kill()
+		p.cmd.Wait()
+	}
+	np, err := startProc(p.name, s.TimeoutMs)
+	if err != nil {
+		return
+	}
+	*p = *np
+	io.WriteString(p.in, s.preamble(p))
+	s.Stats.Restarts++
+}
+
 // Check runs (check-sat) on the current assertion stack.
 func (s *Solver) Check() Result {
+	if s.broken {
+		s.Stats.Queries++
+		s.Stats.NUnknown++
+		return Unknown
+	}
 	t0 := time.Now()
 	s.send("(check-sat)\n(echo \"@done\")\n")
 	r := s.readVerdict(s.p)
